@@ -287,12 +287,18 @@ theorem eq_append_star {p c m : Key} (hp : p <+: m) (hc : c <+: m)
     simp at hlast
     rw [hlast]
 
+/-- the starting value of `next_closest_encloser`: the SOA owner, else the query name's parent -/
+def startName (q : Name) (soa : Option Name) : Name :=
+  match soa with
+  | some s => s
+  | none => baseNameT q
+
 /-- The closest encloser the code computes (`Nsec.codeEncloser`): it is an ancestor-or-self of
 the query name, comes from the SOA / fallback or from the covering record, and no common
 ancestor of the query name with the covering record's owner or next name is longer — except
 `*.<encloser>` itself, which `num_labels()` does not see. -/
 theorem codeEncloser_spec {q : Name} {soa : Option Name} {cov : Nsec} {nce0 : Name}
-    (hn0 : nce0 = match soa with | some s => s | none => baseNameT q)
+    (hn0 : nce0 = startName q soa)
     (h0 : K nce0 <+: K q) :
     let nce := codeEncloser q soa cov
     K nce <+: K q ∧
@@ -336,5 +342,143 @@ theorem codeEncloser_spec {q : Name} {soa : Option Name} {cov : Nsec} {nce0 : Na
         have hlt : rfcLabels p < p.length := by omega
         obtain ⟨hs, he⟩ := rfcLabels_lt_length hlt
         exact eq_append_star hpq b1 (by omega) hs
+
+/-! ### `trim_to`, success of `prepend_label("*")`, `min_by_key`, common prefixes -/
+
+theorem key_trimToT {n : Name} {k : Nat} (h : k ≤ n.labels.length) :
+    K (trimToT n k) = (K n).take k := by
+  unfold trimToT
+  rw [if_neg (by omega)]
+  simp only [K, canonKey]
+  rw [← List.map_take]
+  congr 1
+  rw [List.reverse_drop]
+  congr 1
+  omega
+
+theorem extendAll_ok_of_fits (s : Name) (ls : List Bytes)
+    (hfit : s.encodedLen + ls.length + (ls.map List.length).sum ≤ 255) :
+    ∃ r, s.extendAll ls = .ok r := by
+  induction ls generalizing s with
+  | nil => exact ⟨s, rfl⟩
+  | cons l ls ih =>
+    simp only [List.length_cons, List.map_cons, List.sum_cons] at hfit
+    have hext : s.extendName l = .ok { s with labels := s.labels ++ [l] } := by
+      unfold extendName; simp only [MAX_LENGTH]
+      have hc : ¬ (s.encodedLen + l.length + 1 > 255) := by omega
+      simp [hc]
+    obtain ⟨r, hr⟩ := ih { s with labels := s.labels ++ [l] } (by
+      rw [C04.encodedLen_snoc]; omega)
+    exact ⟨r, by simp only [extendAll, hext, Outcome.bind_ok]; exact hr⟩
+
+theorem prependStar_ok {n : Name} (h : n.encodedLen + 2 ≤ 255) : ∃ w, prependStar n = some w := by
+  unfold prependStar prependLabel
+  have hnew : new.appendLabel Nsec.STAR = .ok ⟨[Nsec.STAR], false⟩ := by decide
+  rw [hnew]
+  simp only [Outcome.bind_ok]
+  have hl : (⟨[Nsec.STAR], false⟩ : Name).encodedLen = 3 := by decide
+  obtain ⟨r, hr⟩ := extendAll_ok_of_fits ⟨[Nsec.STAR], false⟩ n.labels (by
+    rw [hl]; unfold encodedLen dataLen at h; omega)
+  rw [hr]
+  exact ⟨_, rfl⟩
+
+theorem sum_drop_add_le (ls : List Bytes) (k : Nat) (hk : k < ls.length)
+    (hpos : ∀ l ∈ ls, 1 ≤ l.length) :
+    ((ls.drop (ls.length - k)).map List.length).sum + (ls.length - k) + (ls.length - k)
+      ≤ (ls.map List.length).sum + (ls.length - k) := by
+  induction ls generalizing k with
+  | nil => simp at hk
+  | cons l ls ih =>
+    have hl := hpos l (by simp)
+    simp only [List.length_cons] at hk ⊢
+    by_cases hk' : k < ls.length
+    · have h1 : ls.length + 1 - k = (ls.length - k) + 1 := by omega
+      rw [h1]
+      simp only [List.drop_succ_cons, List.map_cons, List.sum_cons]
+      have := ih k hk' (fun x hx => hpos x (by simp [hx]))
+      omega
+    · have hk2 : k = ls.length := by omega
+      subst hk2
+      have h1 : ls.length + 1 - ls.length = 1 := by omega
+      rw [h1]
+      simp only [List.drop_succ_cons, List.drop_zero, List.map_cons, List.sum_cons]
+      omega
+
+/-- trimming a bounded name by at least one label leaves room for the `*` label -/
+theorem encodedLen_trimToT {n : Name} {k : Nat} (hb : C04.Bounded n) (hk : k < n.labels.length) :
+    (trimToT n k).encodedLen + 2 ≤ 255 := by
+  unfold trimToT
+  rw [if_neg (by omega)]
+  have h1 := hb.1
+  unfold encodedLen dataLen at *
+  simp only [List.length_drop]
+  have := sum_drop_add_le n.labels k hk (fun l hl => (hb.2 l hl).1)
+  omega
+
+theorem minByKey_le {α} (key : α → Nat) (xs : List α) (x : α) (hx : x ∈ xs) :
+    ∃ y, minByKey key xs = some y ∧ y ∈ xs ∧ key y ≤ key x := by
+  induction xs with
+  | nil => simp at hx
+  | cons a as ih =>
+    simp only [minByKey]
+    cases hm : minByKey key as with
+    | none =>
+      have : as = [] := by
+        cases as with
+        | nil => rfl
+        | cons b bs =>
+          obtain ⟨y, hy, _⟩ := ih' b bs key
+          rw [hm] at hy; cases hy
+      subst this
+      simp only [List.mem_singleton] at hx
+      subst hx
+      exact ⟨x, rfl, by simp, Nat.le_refl _⟩
+    | some y =>
+      simp only
+      rcases List.mem_cons.1 hx with rfl | hx'
+      · split
+        · rename_i hlt
+          obtain ⟨y', hy', hy'm, _⟩ := ih_some key as y hm
+          exact ⟨y, rfl, List.mem_cons_of_mem _ hy'm, Nat.le_of_lt hlt⟩
+        · exact ⟨x, rfl, by simp, Nat.le_refl _⟩
+      · obtain ⟨y', hy', hy'm, hle⟩ := ih hx'
+        rw [hm] at hy'
+        cases hy'
+        split
+        · exact ⟨y, rfl, List.mem_cons_of_mem _ hy'm, hle⟩
+        · rename_i hnlt
+          exact ⟨a, rfl, by simp, by omega⟩
+where
+  ih' {α} (b : α) (bs : List α) (key : α → Nat) : ∃ y, minByKey key (b :: bs) = some y ∧ True := by
+    simp only [minByKey]
+    cases minByKey key bs with
+    | none => exact ⟨b, rfl, trivial⟩
+    | some y => simp only; split <;> exact ⟨_, rfl, trivial⟩
+  ih_some {α} (key : α → Nat) (as : List α) (y : α) (h : minByKey key as = some y) :
+      ∃ y', minByKey key as = some y' ∧ y ∈ as ∧ True := by
+    refine ⟨y, h, ?_, trivial⟩
+    induction as generalizing y with
+    | nil => simp [minByKey] at h
+    | cons a as ih2 =>
+      simp only [minByKey] at h
+      cases hm : minByKey key as with
+      | none => rw [hm] at h; simp only [Option.some.injEq] at h; subst h; simp
+      | some z =>
+        rw [hm] at h
+        simp only at h
+        split at h
+        · simp only [Option.some.injEq] at h; subst h
+          exact List.mem_cons_of_mem _ (ih2 z hm)
+        · simp only [Option.some.injEq] at h; subst h; simp
+
+theorem length_le_lcpLen {p a b : Key} (ha : p <+: a) (hb : p <+: b) : p.length ≤ lcpLen a b := by
+  induction p generalizing a b with
+  | nil => simp
+  | cons x p ih =>
+    obtain ⟨a', rfl⟩ := ha
+    obtain ⟨b', rfl⟩ := hb
+    simp only [List.cons_append, lcpLen, if_true, List.length_cons]
+    have := ih (a := p ++ a') (b := p ++ b') (List.prefix_append _ _) (List.prefix_append _ _)
+    omega
 
 end HickoryVerif.C08
